@@ -1,4 +1,5 @@
 import Gearpy.Model.Basic
+import Gearpy.Model.Gears
 /-!
 # Gearpy.Model.Solver — SI-level model of `gearpy/solver.py` and of `Powertrain.reset`
 
@@ -39,6 +40,10 @@ structure Rec where
   pwm : Q
   current : Option Q
   locked : Bool
+  /-- tangential force, bending stress and squared contact stress of every element (`none`: not recorded) -/
+  force : List (Option Q) := []
+  bending : List (Option Q) := []
+  contactSq : List (Option Q) := []
   deriving Repr, Inhabited, DecidableEq
 
 /-- what a control rule set can observe when it is applied at an instant -/
@@ -50,6 +55,19 @@ structure CtlIn where
   load0 : Q
   /-- the motor's first *recorded* load torque, or the present one if nothing is recorded yet -/
   firstLoad0 : Q
+  deriving Repr, Inhabited
+
+/-- static gear data of one element as far as `_compute_force` / `_compute_stress` need them -/
+structure GearSim where
+  role : Option Role := none
+  /-- reference diameter and force multiplier (tan β for a worm gear, 1 otherwise): tangential force computable -/
+  force : Option (Q × Q) := none
+  /-- bending-stress denominator `m·b·Y` (`p_n·b_eff·Y` for a worm wheel): bending stress computable -/
+  bendingDen : Option Q := none
+  /-- `(E₁, E₂, d₁, d₂, b, sin α, cos α, cos β)`: contact stress computable -/
+  contactP : Option (Q × Q × Q × Q × Q × Q × Q × Q) := none
+  mateModule : Bool := true
+  mateModulus : Bool := true
   deriving Repr, Inhabited
 
 structure Cfg where
@@ -69,6 +87,8 @@ structure Cfg where
   load : Q → Q → Q → Q
   /-- motor control (`none`: no controller given) -/
   control : Option (CtlIn → Except Err Q)
+  /-- gear data per element (index 0 = motor); elements beyond the list record no force / stress -/
+  gears : List GearSim := []
 
 /-- live state: the powertrain's attributes that survive between instants + the solver's flag -/
 structure St where
@@ -110,6 +130,38 @@ def checkLock (sl locked : Bool) (pwm speed : Q) (torque : Option Q) (tolW tolT 
     | some t => if (decide (tolT < t) && decide (0 < pwm)) || (decide (t < -tolT) && decide (pwm < 0)) then false else locked
     | none => locked
 
+/-- `_compute_force` then `_compute_stress` on the torques just computed: an unmated gear whose force
+    is computable, or a contact stress whose mate lacks module / elastic modulus, raises `ValueError` -/
+def gearForces : List GearSim → List Q → List Q → Except Err (List (Option Q))
+  | g :: gs, d :: ds, l :: ls =>
+      match g.force with
+      | none => (gearForces gs ds ls).map (none :: ·)
+      | some (dia, k) =>
+        match refTorque g.role d l with
+        | .error e => .error e
+        | .ok T => (gearForces gs ds ls).map (some (qabs T / (dia / 2) * k) :: ·)
+  | [], _ :: ds, _ :: ls => (gearForces [] ds ls).map (none :: ·)
+  | _, _, _ => .ok []
+
+def gearStresses : List GearSim → List (Option Q) → Except Err (List (Option Q) × List (Option Q))
+  | g :: gs, f :: fs =>
+      match gearStresses gs fs with
+      | .error e => .error e
+      | .ok (bs, cs) =>
+        match g.bendingDen, f with
+        | some den, some F =>
+            match g.contactP with
+            | none => .ok (some (F / den) :: bs, none :: cs)
+            | some (e1, e2, d1, d2, b, sa, ca, cb) =>
+                match contactMate g.role g.mateModule g.mateModulus with
+                | .error e => .error e
+                | .ok _ => .ok (some (F / den) :: bs, some (contactStressSq F e1 e2 d1 d2 b sa ca cb) :: cs)
+        | _, _ => .ok (none :: bs, none :: cs)
+  | [], _ :: fs => match gearStresses [] fs with
+      | .error e => .error e
+      | .ok (bs, cs) => .ok (none :: bs, none :: cs)
+  | _, [] => .ok ([], [])
+
 /-- `_compute_powertrain_variables` at time `t` (the instant has already been appended) -/
 def compute (c : Cfg) (s : St) (t : Q) : Except Err St :=
   let rs := c.links.map (·.ratio)
@@ -131,10 +183,16 @@ def compute (c : Cfg) (s : St) (t : Q) : Except Err St :=
     let torque := List.zipWith (· - ·) dtorque ltorque
     let lastAcc := if locked then 0 else lastD torque / inertia c
     let acc := if locked then zeros n else upstream rs lastAcc
-    let r : Rec := { time := t, pos, speed, acc, dtorque, ltorque, torque, pwm,
-                     current := c.motorCurrent pwm (dtorque.headD 0), locked }
-    .ok { recs := s.recs ++ [r], pos := s.pos, speed := lastSpeed, acc := lastAcc,
-          mtorque := some (torque.headD 0), pwm, locked }
+    match gearForces c.gears dtorque ltorque with
+    | .error e => .error e
+    | .ok force =>
+      match gearStresses c.gears force with
+      | .error e => .error e
+      | .ok (bending, contactSq) =>
+        let r : Rec := { time := t, pos, speed, acc, dtorque, ltorque, torque, pwm,
+                         current := c.motorCurrent pwm (dtorque.headD 0), locked, force, bending, contactSq }
+        .ok { recs := s.recs ++ [r], pos := s.pos, speed := lastSpeed, acc := lastAcc,
+              mtorque := some (torque.headD 0), pwm, locked }
 
 /-- `_time_integration` -/
 def integrate (s : St) (dt : Q) : St :=
